@@ -878,13 +878,24 @@ def generate_registry():
         passes = bool(re.search(r"force_args = \{\}\n\s*if force is not None:\n\s*force_args\['force'\] = force", csrc))
         visits = bool(re.search(r"for worker in self\._workers\.values\(\):\n\s*t = threading\.Thread\(target=cleanup_worker, args=\(worker,\)\)\n\s*t\.start\(\)\n\s*_cleanup_jobs\.append\(t\)", csrc)) \
             and bool(re.search(r"for t in _cleanup_jobs:\n\s*t\.join\(\)", csrc))
+        # the pool is marked closed only after every clean-up thread was joined: `self._pool_closed = True` is a statement of
+        # the function body itself, behind the try that joins (not in a handler / finally, which also run when the join is interrupted)
+        top = [ast.unparse(x) for x in cl.body]
+        join_try = next((i for i, x in enumerate(cl.body) if isinstance(x, ast.Try) and 't.join()' in ast.unparse(x)), None)
+        mark = next((i for i, x in enumerate(top) if x == 'self._pool_closed = True'), None)
+        marks_after = join_try is not None and mark is not None and mark > join_try and \
+            'self._pool_closed = True' not in ast.unparse(cl.body[join_try])
+        jt = cl.body[join_try] if join_try is not None else None
+        reraises = jt is not None and len(jt.handlers) == 1 and jt.handlers[0].type is None and isinstance(jt.handlers[0].body[-1], ast.Raise) \
+            and jt.handlers[0].body[-1].exc is None and not jt.finalbody
+        guard_first = isinstance(cl.body[0], ast.If) and ast.unparse(cl.body[0].test) == 'self._pool_closed' and isinstance(cl.body[0].body[0], ast.Return)
         b = lambda v: str(bool(v)).lower()  # noqa: E731
         out.append(f'/-- `Pool.restart_workers` ({path.name}:{rw.lineno}), `Pool.add_worker` ({path.name}:{aw.lineno}), `Pool._close` ({path.name}:{cl.lineno}) -/')
-        out.append('def regCfg : Cfg :=\n  { restartBeforeForget := %s, registersNew := %s,\n    addForgets := %s, addTerminates := %s, addReraises := %s,\n    closeVisitsAll := %s, closeGuarded := %s, closeTerminatesIf := %s, closePassesForce := %s }\n'
-                   % (b(restart_first), b(registers), b(add_forgets), b(add_term), b(add_reraise), b(visits), b(guarded), b(term_ok), b(passes)))
+        out.append('def regCfg : Cfg :=\n  { restartBeforeForget := %s, registersNew := %s,\n    addForgets := %s, addTerminates := %s, addReraises := %s,\n    closeVisitsAll := %s, closeGuarded := %s, closeTerminatesIf := %s, closePassesForce := %s,\n    closeMarksAfterJoin := %s, closeReraises := %s, closeSkipsWhenClosed := %s }\n'
+                   % (b(restart_first), b(registers), b(add_forgets), b(add_term), b(add_reraise), b(visits), b(guarded), b(term_ok), b(passes), b(marks_after), b(reraises), b(guard_first)))
     except Exception as e:
         errors.append(f'registry: {type(e).__name__}: {e}')
-        out.append('def regCfg : Cfg := ⟨false, false, false, false, false, false, false, false, false⟩\n')
+        out.append('def regCfg : Cfg := ⟨false, false, false, false, false, false, false, false, false, false, false, false⟩\n')
     out.append('end PwVerif.Gen')
     return '\n'.join(out) + '\n', errors
 
